@@ -43,7 +43,7 @@ CHECKS = {
    technique='bounded exhaustive enumeration of mp::NLModel instances (all column-type vectors over 6 types for 1..3 columns x every Hessian support subset x both declared formats, jointly; all 1- and 2-deviations of the remaining dimensions) written by the real NLSolver::LoadModel / NLW2_* C API, read back by the real mp::ReadNLFile into mp::Problem and compared through the reported permutation with a permutation-free reference model; reference .sol files fed to NLSolver::ReadSolution',
    text='Every NLModel of the stated finite space is written by the real easy-API writer (also through the C API with a byte-identity requirement on a subset), read back with the NL reader, and judged at the reported permutation: bounds, integrality, objective value at all 3^n points of {-1,0,2}^n against c0+c.x+0.5 x\'Qx, rows, header class counts and NL block order, warm starts, all 8 suffix kinds, .col/.row; five reference .sol files per model are returned through ReadSolution and the objective is recomputed.',
    note='<=3 columns, <=2 rows, small dyadic coefficients, one objective, text .sol only; quick takes n=3 Hessian supports on a 60-element covering set; non-core dimensions 1-way and pairwise. The Hessian format enum is undocumented and taken literally (stored matrix).'),
- 'C09': dict(level='fault_enumeration', engine='vdriver', ref='3/C09',
+ 'C09': dict(level='exploration', engine='vdriver', ref='3/C09',
    technique='bounded exhaustive process-level exploration of the real driver (BackendApp/RunBackendApp with a scripted solver): model families x option strings x invocation modes x names files x scripted answers, plus enumeration of every truncation point of the .sol (RLIMIT_FSIZE=k for all k) and unwritable .sol paths; oracle = process outcome + reference .sol parser + NL-header dimensions + cause-class rules',
    text='4.3K (quick) / 14.7K (thorough) driver processes: every operator shape, proven-infeasible models, every unsupported construct, missing bounds, single deviations of base .nl files (every line deleted, every numeric token replaced, every truncation), nesting ladders, option/mode/names-file alphabets, scripted result codes, and for three representative runs every byte offset at which the file system refuses to grow the .sol; each run must terminate, not crash, and leave either a complete dimensionally right .sol with a code of the right class or a diagnostic on stderr with a non-zero status.',
    note='Models <=3 variables; malformed inputs are single deviations of 5/10 base files; faults are single, on the .sol path only; the sanitizer build excludes operator shapes and byte-offset faults; AMPL itself is not run.'),
